@@ -179,6 +179,21 @@ func (r *atRun) runBusiness(ctx context.Context, ep *ATEpisode, out *[]stmtRes) 
 			}
 		}
 	}()
+	// the handle the business runs on: the pool, or (generator feature) one
+	// connection of it for the whole episode - what an application does that
+	// pins a connection with db.Conn
+	type handle interface {
+		execer
+		BeginTx(ctx context.Context, opts *sql.TxOptions) (*sql.Tx, error)
+	}
+	var h handle = r.db
+	if r.plan != nil && r.plan.Opts.DedicatedConn && r.prop != "none" {
+		if c, err := r.db.Conn(ctx); err == nil {
+			defer c.Close()
+			h = c
+			r.w.Sim.Probe("at-episode-on-one-dedicated-connection")
+		}
+	}
 	for bi, br := range ep.Branches {
 		if ep.StopOnErr {
 			stop := false
@@ -192,7 +207,7 @@ func (r *atRun) runBusiness(ctx context.Context, ep *ATEpisode, out *[]stmtRes) 
 			}
 		}
 		if br.Explicit {
-			tx, err := r.db.BeginTx(ctx, nil)
+			tx, err := h.BeginTx(ctx, nil)
 			if err != nil {
 				*out = append(*out, stmtRes{Branch: bi, Idx: -1, Err: err})
 				continue
@@ -222,7 +237,7 @@ func (r *atRun) runBusiness(ctx context.Context, ep *ATEpisode, out *[]stmtRes) 
 			continue
 		}
 		for si, st := range br.Stmts {
-			res, err := r.safeExec(ctx, r.db, st)
+			res, err := r.safeExec(ctx, h, st)
 			sr := stmtRes{Branch: bi, Idx: si, Err: err}
 			if err == nil {
 				sr.Affected, _ = res.RowsAffected()
@@ -1073,6 +1088,7 @@ func genATPlanTweaked(seed uint64, tier, mode string, tweak func(g *simkit.Gen, 
 		p.Opts.WhereForms = pickSome(g, []string{"pk", "in", "between", "and", "or", "paren", "nonpk"}, 1)
 	}
 	p.Opts.Params = g.Prob(0.8)
+	p.Opts.DedicatedConn = g.Prob(0.15)
 	if g.Prob(0.06) {
 		// preset: undo logs dominated by one high-entropy value, under a
 		// compressor (a block compressor refuses what it cannot shrink)
